@@ -186,7 +186,11 @@ where
                 WaitMode::Block => limiter.until_key_ready(peer_id).await,
                 WaitMode::ReturnError => {
                     if let Err(e) = limiter.check_key(peer_id) {
-                        let wait_time = e.wait_time_from(clock.now());
+                        // The clock is read again after the limiter's decision, so the remaining
+                        // wait can round down to zero; a refusal always advertises a positive wait.
+                        let wait_time = e
+                            .wait_time_from(clock.now())
+                            .max(std::time::Duration::from_nanos(1));
                         return Err(anemo::rpc::Status::new(
                             anemo::types::response::StatusCode::TooManyRequests,
                         )
